@@ -30,3 +30,5 @@ def run(ctx):
         codecs20.search(ctx)
         from .. import querycamp     # interleaved non-audio calls (chunk / string / metadata queries, SFC_CALC_*, …) do not move the audio position
         querycamp.run(ctx, "C06")
+        from .. import foreignread   # FOREIGN-BUT-VALID layouts: seeks and partitions on files whose data offset / data end come from parser steps the library's writer never exercises
+        foreignread.run(ctx, "C06")
